@@ -4,7 +4,7 @@
      Translations._find_translations / seen_default_only / _find_missing,
      format_missing_translations_msg, SheetTranslations.missing_check / or_other_check
                                       validators/pyxform/translations_checks.py *)
-Require Import PX.Base.Str PX.Spec.EditDistance PX.Model.Lev.
+Require Import PX.Base.Str PX.Base.PyStr PX.Spec.EditDistance PX.Model.Lev.
 
 Definition mem (x : str) (l : list str) : bool := existsb (seqb x) l.
 Definition UNDERSCORE : char := 95%N.
@@ -12,7 +12,7 @@ Definition lower_ascii_c (c : char) : char := if (65 <=? c)%N && (c <=? 90)%N th
 Definition lower_ascii (s : str) : str := map lower_ascii_c s.
 
 Section Misspell.
-Variable lower : str -> str.           (* str.lower(); the ASCII instance is used for evaluation *)
+Variable lower : str -> str.           (* the name as the readers take it: str.strip().lower(); the ASCII instance is used for evaluation *)
 Variable supported : list str.         (* constants.SUPPORTED_SHEET_NAMES *)
 
 Definition is_candidate (key k : str) : bool :=
@@ -25,7 +25,7 @@ Definition msg_looking : str := [87;104;101;110;32;108;111;111;107;105;110;103;3
 Definition msg_similar : str := [44;32;116;104;101;32;102;111;108;108;111;119;105;110;103;32;115;104;101;101;116;115;32;119;105;116;104;32;115;105;109;105;108;97;114;32;110;97;109;101;115;32;119;101;114;101;32;102;111;117;110;100;58;32]%N.
 Definition comma_sp : str := [44;32]%N.
 Definition find_sheet_misspellings (supported : list str) (key : str) (keys : list str) : option str :=
-  match misspelling_candidates lower_ascii supported key keys with
+  match misspelling_candidates (fun k => lower_ascii (py_strip k)) supported key keys with
   | [] => None
   | cs => Some (msg_looking ++ q key ++ msg_similar ++ join comma_sp (map q cs) ++ [46%N])
   end.
